@@ -610,6 +610,22 @@ def eval_block_case(model, case):
         stats["model:block " + cls] = 1
         tolm = TOL_MODEL
         sides = (("original", x0, m0), ("rewritten", x1, m1))
+        floor_m = FLOOR_MODEL
+        if len(x0) == 2:
+            # A two-index block may vanish IDENTICALLY by symmetry (angular momentum of an s function at the origin,
+            # momentum between two s functions on one centre, odd moments, ...): the exact model returns 0 and the
+            # implementation rounding noise of size eps x (terms that cancel).  The natural magnitude of those terms is
+            # (overlap of |functions|) x (operator scale: lengths up to |r|, momenta up to sqrt(alpha)); allow 1e-13 of it.
+            from gbasis.integrals.overlap import Overlap
+            try:
+                ab = [copy_shell(x, coeffs=[[abs(c) for c in row] for row in x.coeffs]) for x in x0]
+                so = float(np.max(np.abs(np.asarray(Overlap.construct_array_contraction(ab[0].to_gbasis(), ab[1].to_gbasis())))))
+            except Exception:  # noqa: BLE001
+                so = 0.0
+            rmax = max([1.0] + [abs(float(c)) for x in x0 for c in x.coord])
+            emax = max(float(e) for x in x0 for e in x.exps)
+            if np.isfinite(so):
+                floor_m = max(FLOOR_MODEL, 1e-5 * so * (1.0 + rmax) ** 2 * ((1.0 + emax) if cls == "kinetic" else (1.0 + emax ** 0.5)))
         if cls == "eri":
             tolm = TOL_MODEL_ERI
             if _exp_ratio(x0) > 1e3:
@@ -618,7 +634,9 @@ def eval_block_case(model, case):
             st, bi = blk(shells)
             if st != "ok":
                 return {"kind": "rejected", "module": cls, "impl": bi}
-            d = close(_post(np.asarray(bi), post), mm, tolm, FLOOR_MODEL, "%s block impl-vs-model/%s" % (cls, what))
+            # eps x (magnitude of the terms, incl. the large cancelling ones a split may add) must fit into tolm x floor
+            fl = max(floor_m, 1e-7 * term_scale(shells)) if cls != "eri" else floor_m
+            d = close(_post(np.asarray(bi), post), mm, tolm, fl, "%s block impl-vs-model/%s" % (cls, what))
             if d:
                 d["module"] = cls
                 return d
